@@ -84,6 +84,10 @@ func run(c *vk.Ctx, can *rig.Canary, sc scen, idx int) {
 			if lo := lastOut(); !lo.Add(offset).After(time.Now().Add(2 * time.Millisecond)) {
 				_ = l.S.Send(fixgen.CreateMarketDataRequestReject("c08"))
 				c.Count("app_sends", 1)
+				// wait until the message shows up on the wire, so that the next round measures from it
+				for w := 0; w < 100 && !lastOut().After(lo); w++ {
+					time.Sleep(2 * time.Millisecond)
+				}
 				return
 			}
 		}
@@ -178,7 +182,18 @@ func run(c *vk.Ctx, can *rig.Canary, sc scen, idx int) {
 				}
 				// A Heartbeat whose timer expired (N after the message before the previous one) while an
 				// application send was in flight is concurrent with that send: either wire order is legitimate.
-				concurrentWithSend := gap <= 100*time.Millisecond+5*jit && i >= 2 && prevGap >= N-20*time.Millisecond-3*jit
+				// walk back over the messages written within the concurrency window before this Heartbeat: its timer
+				// decision may predate all of them; the first message outside the window must be at least N old
+				window := 100*time.Millisecond + 5*jit
+				concurrentWithSend := false
+				if gap <= window {
+					j := i - 1
+					for j >= 0 && fr.T.Sub(frames[j].T) <= window {
+						j--
+					}
+					concurrentWithSend = j < 0 || fr.T.Sub(frames[j].T) >= N-20*time.Millisecond-3*jit
+				}
+				_ = prevGap
 				if concurrentWithSend {
 					c.Count("heartbeats_concurrent_with_a_send(not judged)", 1)
 				}
